@@ -164,6 +164,8 @@ class World:
             if arm[0] == "np.*":
                 self.probes["fault.died_in_a_numpy_call(np.*)"] += 1
                 self.probes["fault.np.*:" + arm[2]] += 1
+            if arm[0] == "display.*":
+                self.probes["display.request_failed"] += 1
         return out
 
     def fn(self, spec):
